@@ -152,7 +152,18 @@ def tweak_texts(r, L, R):
         return [(n, a) for n in t.iter() for a in ("text", "tail") if getattr(n, a) and (a == "text" or n is not t) and (n.kind == "e" or a == "tail")]
 
     m = r.random()
-    if m < 0.04:
+    if m < 0.01:
+        # (g) a long text with many separate changes: finalize takes one step per wrapper it restores
+        k = r.randrange(1 << 30)
+        n_ = r.randint(80, 220)
+        a_ = " ".join("w%da" % i for i in range(n_))
+        b_ = " ".join(("w%db" % i if i % 2 == 0 else "w%da" % i) for i in range(n_))
+        for t, wv in ((L, a_), (R, b_)):
+            sl = slots(t)
+            if sl:
+                n, a = sl[k % len(sl)]
+                setattr(n, a, wv)
+    elif m < 0.04:
         # (f) pairs for which the engine's cleaned-up answer has an insertion directly followed by a deletion
         k = r.randrange(1 << 30)
         a_, b_ = r.choice([("abaab", "aaabaaaa"), ("abbcbbccc", "cbcbbb"), ("babba", "bbbabbbb"), ("  aa  aba", "baa   ")])
